@@ -911,6 +911,11 @@ func (c *canon) call(call *ssa.Call, d int) string {
 	for _, a := range cc.Args {
 		args = append(args, c.val(a, d-1))
 	}
+	// appending to a fresh empty slice is the appended list itself: `l := make([]T, 0); l = append(l, x)` and
+	// `l := []T{x}` are one form
+	if name == "append" && len(args) == 2 && strings.HasPrefix(args[0], "local<[0]") && strings.HasSuffix(args[0], ">[:0]") {
+		return args[1]
+	}
 	return name + "(" + strings.Join(args, ",") + ")" + c.feeds(call, d)
 }
 
